@@ -24,7 +24,7 @@ from ..coqrun import cN, cZ, cbool, clist, cpair, copt
 from ..tok import S
 
 PID = "C10"
-COQ_HEADER = ("From Coq Require Import List NArith ZArith String.\nFrom SK Require Import lib.Tok lib.LGraph model.C10_Model model.C10_Text model.C10_Rxn.\n"
+COQ_HEADER = ("From Coq Require Import List NArith ZArith String.\nFrom SK Require Import lib.Tok lib.LGraph model.C10_Model model.C10_Text model.C10_Rxn model.C10_Dfs.\n"
               "Import ListNotations.\nLocal Open Scope string_scope.\nLocal Open Scope Z_scope.\n")
 SHARD = 60
 IMPL_TIMEOUT = 1500
@@ -85,7 +85,7 @@ TESTED_NOT_PROVED = [
     "graph_to_rsmi / its_to_rsmi / gml_to_smart: modelled up to the two RWMol handed to RDKit (observed on the real call by a spy on "
     "graph_to_smi / GraphToMol.graph_to_mol); what RDKit writes from them is not modelled",
 ]
-LEVEL_TEXT = ("Machine-checked proof (Coq, 47 theorems, closed under the global context) over an executable model of the GML writer/reader at "
+LEVEL_TEXT = ("Machine-checked proof (Coq, 48 theorems, closed under the global context) over an executable model of the GML writer/reader at "
               "record level, of its_to_gml / gml_to_its / smart_to_gml / get_rc / its_decompose / ITSGraph at graph level, of h_to_explicit / "
               "h_to_implicit, and of the attribute copying of MolToGraph / GraphToMol: label round trip for every element symbol and every "
               "charge; ITS -> GML -> ITS restores atoms, both-side charges and (before, after) orders for every reaction-centre-shaped ITS, "
@@ -570,6 +570,10 @@ def impl(case):
         return run_hist(case["script"])
     if k == "text":
         return _text_obs(case["text"])
+    if k == "dfs":
+        from synkit.IO.chem_converter import dfs_to_smiles, smiles_to_dfs, normalize_dfs_for_compare
+        return [[dfs_to_smiles(x, True), dfs_to_smiles(x, keep_map=False), smiles_to_dfs(x), normalize_dfs_for_compare(x),
+                 smiles_to_dfs(dfs_to_smiles(x)), dfs_to_smiles(smiles_to_dfs(x))] for x in case["strings"]]
     if k == "itshist":
         from synkit.IO.chem_converter import its_to_gml
         I = to_nx(case["its"])          # ONE object, exported, edited in place, exported again
@@ -657,6 +661,10 @@ def coq_case(case):
             return coq_hist(case["script"])
         if k == "text":
             return "run_text2 %s" % enc_str(case["text"])
+        if k == "dfs":
+            if any(ord(ch) > 127 for x in case["strings"] for ch in x):
+                return None
+            return "run_dfs %s" % clist([enc_str(x) for x in case["strings"]])
         if k == "itshist":
             parts = []
             for j, g in enumerate(_its_after_edits(case)):
@@ -1710,7 +1718,7 @@ def nontrivial(case, obs):
         return any(a.get("hcount") or a.get("element") == "H" for _, a in case["g"]["nodes"])
     if k == "mol":
         return isinstance(obs, list) and obs != ["NOGRAPH"]
-    if k in ("hist", "text", "rxn", "itsrsmi", "imph", "itshist"):
+    if k in ("hist", "text", "rxn", "itsrsmi", "imph", "itshist", "dfs"):
         return True
     if k in ("parse", "gmlsmart"):
         return any(es for _, es in case["rec"])
@@ -2228,6 +2236,18 @@ def gen_cases(tier, rng):
                         K["edges"].append([i, rng.choice(ids), {"order": [1, 1], "standard_order": 0}])
             rng.shuffle(K["nodes"])
         cases.append(dict(kind="transform", L=side(0), R=side(1), K=K, cfgs=[[True, False], [False, False], [rng.random() < 0.5, True]]))
+    # ---- DFS-style annotated SMILES <-> mapped SMILES (string rewriting at the bottom of chem_converter.py; model/C10_Dfs.v)
+    fixed = ["[H]1[]3.C[O]2>>C[O]2.[H]1[]3", "[H]1[N]2([H]4)[]3>>[]3[N]2.[H]1[N]6([H]4)[H]5", "[H:1][*:3].C[O:2]>>C[O:2].[H:1][*:3]",
+             "[H:12][N:2]([H:4])[*:3]", "[H]1 [*]3 >> [H]1[*]3", "", "[]", "[*]", "[[]1", "[a]]2", "[C:1]5", "[]12[*]3", "[:1]", "[C:]1", "[C::2]",
+             "[a:b:3]", "[C]1 2", "[C\n]1", "[]1]2", "[[C]1]2", "[*:3]", "[**:3]", "[C]007", "[[*]]", "[[]]", "[*][]", "[*]1[]2", "[C:12", "C]1", "[]]1"]
+    cases.append(dict(kind="dfs", strings=fixed, name="dfs/fixed"))
+    for k in range(8 if quick else 60):
+        cases.append(dict(kind="dfs", strings=["".join(rng.choice("[][]]::**0129CHN.> \n") for _ in range(rng.randint(0, 14))) for _ in range(30)]))
+    cp = _corpus()
+    for k in range(6 if quick else 60):
+        r = cp[rng.randrange(len(cp))][2]
+        from synkit.IO.chem_converter import smiles_to_dfs as _s2d
+        cases.append(dict(kind="dfs", strings=[r, _s2d(r)], name="dfs/corpus/%d" % k))
     # ---- reaction-level wrappers (model/C10_Rxn.v): rsmi_to_its options, its_to_rsmi / graph_to_rsmi / gml_to_smart up to the
     #      molecules handed to RDKit, implicit_hydrogen(reindex)
     from ..gen import c10_rxn
